@@ -306,11 +306,14 @@ def finish(ctx, corr, theorems, level_text, extra=None):
     """decide, write evidence, print VIOLATION lines, exit"""
     known = load_known()
     violations = []
+    printed_known = set()
     # 1. concrete failing inputs found by the spec-level oracle on the implementation
     for cid, desc, rep in corr.oracle_failures:
         kn = [k for k in known.get('known', []) if k.get('property') == ctx.pid and k.get('match') and k['match'] in desc]
         if kn:
-            print('KNOWN-FINDING: property=%s %s' % (ctx.pid, kn[0].get('what', desc)))
+            if kn[0]['match'] not in printed_known:      # one line per listed finding, however many inputs exhibit it
+                printed_known.add(kn[0]['match'])
+                print('KNOWN-FINDING: property=%s %s' % (ctx.pid, kn[0].get('what', desc)))
             continue
         violations.append(('input', cid, desc, rep))
     # 2. broken obligations / correspondence with no failing input
